@@ -240,6 +240,45 @@ class _Passes(ast.NodeTransformer):
         return node
 
 
+class _ArgTemp(ast.NodeTransformer):
+    """Name an intermediate value: in `… recv.m(E, …)` / `… f(E, …)` statements (expression statements, assignments, returns) whose
+    first positional argument E is itself a call, write `arg_tmpN = E` in front and pass `arg_tmpN`. Only when everything evaluated
+    before E in the statement is a plain name or attribute chain of names (no calls, no subscripts), so that nothing E could affect
+    is read earlier."""
+
+    n = 0
+
+    @staticmethod
+    def _pure_chain(e: ast.AST) -> bool:
+        while isinstance(e, ast.Attribute):
+            e = e.value
+        return isinstance(e, ast.Name)
+
+    def _rewrite(self, st: ast.stmt) -> list[ast.stmt]:
+        val = st.value if isinstance(st, (ast.Expr, ast.Assign, ast.Return)) else None
+        if isinstance(st, ast.Assign) and not all(isinstance(t, ast.Name) for t in st.targets):
+            return [st]
+        if isinstance(val, ast.Await):
+            return [st]
+        if isinstance(val, ast.Call) and self._pure_chain(val.func) and val.args and isinstance(val.args[0], ast.Call) and not any(isinstance(x, (ast.Await, ast.NamedExpr, ast.Yield, ast.YieldFrom, ast.Starred)) for x in ast.walk(val)):
+            _ArgTemp.n += 1
+            nm = f"arg_tmp{_ArgTemp.n}"
+            pre = ast.Assign(targets=[ast.Name(id=nm, ctx=ast.Store())], value=val.args[0], lineno=st.lineno)
+            val.args[0] = ast.Name(id=nm, ctx=ast.Load())
+            return [pre, st]
+        return [st]
+
+    def generic_visit(self, node: ast.AST) -> ast.AST:
+        super().generic_visit(node)
+        if isinstance(node, ast.Lambda):
+            return node
+        for fld in ("body", "orelse", "finalbody"):
+            b = getattr(node, fld, None)
+            if isinstance(b, list) and b and isinstance(b[0], ast.stmt) and not isinstance(node, ast.ClassDef) and not isinstance(node, ast.Module):
+                setattr(node, fld, [x for st in b for x in self._rewrite(st)])
+        return node
+
+
 class _MsgText(ast.NodeTransformer):
     """Reword the message of every `raise X("…")` (prefix added)."""
 
@@ -260,7 +299,7 @@ def transform(src: str, kind: str) -> str:
         tree = _Rename().visit(tree)
     if kind in ("swapif", "all"):
         tree = _SwapIf().visit(tree)
-    for k_, cls_ in (("swapifexp", _SwapIfExp), ("yoda", _Yoda), ("kwreorder", _KwReorder), ("excorder", _ExcOrder), ("msgtext", _MsgText), ("ctorlit", _CtorLit), ("demorgan", _DeMorgan), ("passes", _Passes)):
+    for k_, cls_ in (("swapifexp", _SwapIfExp), ("yoda", _Yoda), ("kwreorder", _KwReorder), ("excorder", _ExcOrder), ("msgtext", _MsgText), ("ctorlit", _CtorLit), ("demorgan", _DeMorgan), ("passes", _Passes), ("argtemp", _ArgTemp)):
         if kind == k_:
             tree = cls_().visit(tree)
     if kind == "retvar":
